@@ -24,6 +24,27 @@ NOTES = {
  'C18': ('missed', 'three variables feeding one field in every combination of {default, none} x {absent, null, value} and every declaration order'),
  'C19': ('missed', 'directive conditions through variables with defaults: default overridden by the supplied value, default used (absent / null), mixed over the sites'),
  'C20': ('detected', ''),
+ # second round: the agents were told which function the first round had changed and asked for a different mechanism
+ 'C01b': ('missed', 'lists handed to the executor by value (comparable and non-comparable structs); mode sets with an Expensive field are also executed inside a reactive rerunner'),
+ 'C02b': ('missed', 'an Expensive field on long-lived objects (stable cache key) and chained settled histories (cfg.Chain): element dropped, its data changed while absent, element back'),
+ 'C03b': ('missed', 'pairs in which new shares old\'s backing storage (reslice to every length, extension into spare capacity, same-length alias; top level / under a field / as an element)'),
+ 'C04b': ('detected', ''),
+ 'C05b': ('missed', 'per-caller contexts: only one caller\'s own context is cancelled and a later call arrives on the live batching context after the cancelled caller returned'),
+ 'C06b': ('missed', 'mutations through the gateway whose result needs fields of other services (pickUser), with a once-only execution count'),
+ 'C07b': ('detected', ''),
+ 'C08b': ('missed', 'a transient failure (RetrySentinelError) of one attempt, at the top level or inside a cached child, after its dependencies were registered'),
+ 'C09b': ('detected', ''),
+ 'C10b': ('missed', 'statements that stay in flight for a scheduling step (fakesql.SlowSelect) explored at bound 2 with an early wait-interval timer'),
+ 'C11b': ('detected', ''),
+ 'C12b': ('detected', ''),
+ 'C13b': ('missed', 'a scheduled part: 2-3 threads decode rows of one table concurrently (query result / BuildStruct), a column whose Scan is a scheduling point'),
+ 'C14b': ('missed', 'one composite field under one alias with two different sub-selections at two paths to the same long-lived object; every accepted query is also executed inside a reactive rerunner'),
+ 'C15b': ('missed', 'fragments of 5 type conditions x 5 positions x 11 bodies (fields only the named type has, unknown fields, wrong shapes), inline and as spreads'),
+ 'C16b': ('missed', 'resolver errors that wrap context.Canceled (plain and safe-wrapped) while the subscription\'s own context is alive'),
+ 'C17b': ('missed', 'a re-run (not the first run) that fails once and is retried, followed by unsubscribe / close'),
+ 'C18b': ('detected', ''),
+ 'C19b': ('missed', 'both written orders of a @skip + @include pair on one node'),
+ 'C20b': ('detected', ''),
 }
 rows = []
 for name in sorted(os.listdir(ROOT)):
